@@ -26,7 +26,7 @@ ASSUMPTIONS = [
 ]
 REQUIRED = {"roundtrip.v2.mol": 50, "roundtrip.v2.ens": 20, "roundtrip.v1.mol": 10, "roundtrip.v1.ens": 10,
             "read.fresh-handle": 50, "source-unchanged": 50, "read.again-after-editing-previous-result": 50,
-            "source.atoms-lent-to-another-structure": 20, "source.large-text-attribute": 10, "library.created-over-a-legacy-file": 3, "read.failed-decode-before-good-reads": 5}
+            "source.atoms-lent-to-another-structure": 20, "source.large-text-attribute": 10, "library.created-over-a-legacy-file": 3, "library.other-format-version-used-earlier-in-process": 3, "read.failed-decode-before-good-reads": 5}
 CHUNK_TIMEOUT = 900
 
 RTOL, ATOL = 1.2e-7, 1e-38
@@ -81,6 +81,23 @@ def run_chunk(spec, ctx):
     Lib = ml.MoleculeLibrary if kind == "mol" else ml.ConformerLibrary
     ext = ".mlib" if kind == "mol" else ".clib"
     path = ctx.tmp / f"lib{ext}"
+    other_lib = None
+    if spec["chunk"] % 5 == 3:
+        # a library of the OTHER format version was opened (and used) earlier in this process and is still around:
+        # a conversion of legacy files to the current format, or the reverse; each handle keeps its own format
+        opath = ctx.tmp / f"other{ext}"
+        if version == 2:
+            make_v1_file(opath)
+            other_lib = Lib(opath, readonly=False)
+        else:
+            other_lib = Lib(opath, readonly=False, overwrite=True)
+        orng = ctx.rng(spec["chunk"], "other-library")
+        ox = gen.molecule(orng, rich=True) if kind == "mol" else gen.ensemble(orng, rich=True)
+        with other_lib.writing():
+            other_lib["o"] = ox
+        with other_lib.reading():
+            _ = other_lib["o"]
+        ctx.count("library.other-format-version-used-earlier-in-process")
     if version == 1:
         make_v1_file(path)
         lib = Lib(path, readonly=False, bufsize=spec["bufsize"])
